@@ -177,3 +177,56 @@ def random_cases(n, seed, maxlen=16):
         h = hashlib.blake2b(repr(("rnd", seed, i)).encode(), digest_size=16).digest()
         out.append(h[:16])
     return out
+
+
+def boundary_value_cases():
+    """displacement and immediate fields at every width boundary, for representative rows of each addressing / immediate form"""
+    out = []
+    d8 = [0x00, 0x01, 0x7f, 0x80, 0xff]
+    d32 = [b"\x00\x00\x00\x00", b"\x7f\x00\x00\x00", b"\x80\x00\x00\x00", b"\x80\xff\xff\xff", b"\x7f\xff\xff\xff", b"\xff\xff\xff\x7f", b"\x00\x00\x00\x80",
+           b"\xff\xff\xff\xff", b"\x00\x01\x00\x00", b"\xff\xff\x00\x00"]
+    d16 = [b"\x00\x00", b"\x7f\x00", b"\x80\x00", b"\x80\xff", b"\xff\x7f", b"\x00\x80", b"\xff\xff"]
+    rows = [b"\x8b", b"\x89", b"\x03", b"\x8d", b"\x0f\xb6", b"\xd9", b"\x0f\x10", b"\x88", b"\x0f\xaf", b"\xdd"]
+    for opc in rows:
+        for pfx in (b"", b"\x66"):
+            for rm, sib in ((0, b""), (5, b""), (4, b"\x24"), (4, b"\x88"), (4, b"\x6d")):
+                for d in d8:
+                    out.append(window(pfx, opc, bytes([modrm(1, 0, rm)]) + sib + bytes([d]) + PATTERN))
+                for d in d32:
+                    out.append(window(pfx, opc, bytes([modrm(2, 3, rm)]) + sib + d + PATTERN))
+            for d in d32:
+                out.append(window(pfx, opc, bytes([modrm(0, 1, 5)]) + d + PATTERN))
+        for d in d8:
+            for rm in (0, 4, 5, 7):
+                out.append(window(b"\x67", opc, bytes([modrm(1, 2, rm), d]) + PATTERN))
+        for d in d16:
+            out.append(window(b"\x67", opc, bytes([modrm(2, 2, 7)]) + d + PATTERN))
+            out.append(window(b"\x67", opc, bytes([modrm(0, 2, 6)]) + d + PATTERN))
+    # immediates
+    for pfx in (b"", b"\x66"):
+        for digit in range(8):
+            for d in d8:
+                out.append(window(pfx, b"\x83", bytes([modrm(3, digit, 1), d]) + PATTERN))
+                out.append(window(pfx, b"\x80", bytes([modrm(3, digit, 1), d]) + PATTERN))
+                out.append(window(pfx, b"\x83", bytes([modrm(1, digit, 5), 0x10, d]) + PATTERN))
+            for d in (d32 if pfx == b"" else [x + b"\x11\x22" for x in d16]):
+                out.append(window(pfx, b"\x81", bytes([modrm(3, digit, 2)]) + d + PATTERN))
+        for d in d8:
+            out.append(window(pfx, b"\x6a", bytes([d]) + PATTERN))
+            out.append(window(pfx, b"\x6b", bytes([0xc1, d]) + PATTERN))
+            out.append(window(pfx, b"\xc6", bytes([0x00, d]) + PATTERN))
+            out.append(window(pfx, b"\xb0", bytes([d]) + PATTERN))
+            out.append(window(pfx, b"\xa8", bytes([d]) + PATTERN))
+            out.append(window(pfx, b"\xc1", bytes([0xe0, d]) + PATTERN))
+            out.append(window(pfx, b"\xcd", bytes([d]) + PATTERN))
+        for d in (d32 if pfx == b"" else [x + b"\x11\x22" for x in d16]):
+            out.append(window(pfx, b"\x68", d + PATTERN))
+            out.append(window(pfx, b"\x69", bytes([0xc1]) + d + PATTERN))
+            out.append(window(pfx, b"\xc7", bytes([0x00]) + d + PATTERN))
+            out.append(window(pfx, b"\xb8", d + PATTERN))
+            out.append(window(pfx, b"\x05", d + PATTERN))
+            out.append(window(pfx, b"\xa9", d + PATTERN))
+    for d in d32:
+        for op in (0xa0, 0xa1, 0xa2, 0xa3):
+            out.append(window(b"", bytes([op]), d + PATTERN))
+    return out
